@@ -241,6 +241,8 @@ func genSkeletons() {
 			if fd.Body == nil {
 				die("skeleton: %s has no body", t.name)
 			}
+			// local names are made canonical (v0, v1, ...) so that a renaming is not a change of shape
+			canonRename(p, fd)
 			s := &skel{fset: p.fset}
 			s.block(0, fd.Body.List)
 			return s.out
